@@ -414,7 +414,7 @@ func OP_NEW_OBJ_Handler(v *VM) {
 func OP_LIST_LOAD_Handler(v *VM) {
 	idx := int(v.Pop().Num().V)
 	lst := v.Pop().List().V
-	util.Assert(idx < len(lst), "out of range %d of %s", idx, lst)
+	util.Assert(idx >= 0 && idx < len(lst), "out of range %d of %s", idx, lst)
 	v.Push(lst[idx])
 }
 
